@@ -133,6 +133,25 @@ func c01Ack(c *Ctx) {
 		for _, call := range callsTo(fn, nameIs("(*ls.DB).SyncAndWait")) {
 			c.requireGuard(rule, fn, Site{call, "SyncAndWait"}, truthFact(vParam("wait"), true, "wait"))
 		}
+		// must-run: with wait=true a success is reported only after the replica was
+		// synced, whether or not this request itself produced a new transaction (the
+		// monitor may already have turned the WAL into a local file that is not uploaded yet)
+		ups := callSitesV(fn, nameIs("(*ls.DB).SyncAndWait", "(*ls.Replica).Sync"))
+		c.floor(rule, len(ups), 1, "replica synchronisation in Store.SyncDB")
+		avoid := map[*ssa.BasicBlock]bool{}
+		for _, u := range ups {
+			avoid[u.At().Block()] = true
+		}
+		noWait := factEdges(fn, truthFact(vParam("wait"), false, "!wait"))
+		r := reachableAvoiding(fn, nil, noWait, avoid)
+		bad := len(noWait) == 0
+		for _, ret := range successReturns(fn) {
+			if r[ret.Block()] && !avoid[ret.Block()] {
+				bad = true
+			}
+		}
+		c.check(!bad, rule, fnName(fn)+": with wait=true every success return follows a replica synchronisation", c.P.Pos(fn.Pos()), "no success return bypasses SyncAndWait/Replica.Sync unless wait is false",
+			"a `sync -wait` request can be acknowledged without the replica having been synchronised (e.g. when this request found nothing new to copy although an earlier local file is not uploaded yet)")
 	}
 	// HTTP handler: 200 only after SyncDB succeeded
 	for _, fn := range c.P.ProdFuncs() {
